@@ -159,3 +159,28 @@ CHECKS["C05"] = dict(
     assumptions=_E1_ASSUME,
     parts=[P("seq", "seq", "TestC05", dict(checks=64, shards=8, timeout=900), dict(checks=2000, shards=16, timeout=3000))],
 )
+
+CHECKS["C10"] = dict(
+    level="fault_enumeration",
+    rule=("one write per case: content length (0,1,100,2047-2049,4096,5000,32767-32769,65536,65537,100000 or any 0..70000) x previous state of the key (absent/value/deleted) x client "
+          "(inline Set/SetReader/Create, external Set/SetReader/Create against an in-process server, the server's SetFile handler driven through a fake stream) x optional enclosing ReadCommitted transaction x fault: "
+          "source reader error at byte p, context cancelled after p bytes, File.Write returning ENOSPC at byte p with r in {0,1,2,100,2047,2048,32767,all} bytes of the failing chunk already written on all or a proper subset of 1-3 roots "
+          "with per-root reported free space, stream Recv error (Canceled/Unavailable/unexpected EOF) at message i, or no fault; p from {0,1,2047,2048,2049,32767,32768,32769,L-1,L,L+1} or anywhere. "
+          "Oracle: returned error => an independent reader (same client and a second connection) reads the previous value/ErrNotFound and the unrelated key is unchanged; nil => reads exactly the source bytes; "
+          "incomplete source (reader/Recv error) => must be an error; ENOSPC on all roots => ErrNoFreeSpace; ENOSPC where a healthy root reports more free space than every failing root => must succeed. "
+          "non-trivial = the injected fault actually fired (hook/reader counter)."),
+    assumptions=["the server side of an aborted upload finishes asynchronously: the check waits until no instrumented step happened for 40 ms before reading (can only miss, never invent a trace)",
+                 "ENOSPC is injected at the File.Write wrapper (hook), free space through the disk-usage hook; all roots of the sandbox share one real filesystem"],
+    parts=[P("faults", "seq", "TestC10", dict(checks=400, shards=8, timeout=900), dict(checks=20000, shards=16, timeout=3400))],
+)
+
+CHECKS["C11"] = dict(
+    level="exploration",
+    rule=("part 'ext': the C01/C02/C03/C13 history generators (autocommit content-heavy incl. the empty key and lengths 0,1,2047-2049,4095-4097,6000,100 KiB through Set/SetReader/Create; transactional at all four levels; operations through ended/unknown transactions) "
+          "executed through pkg/external.Open against internal/app serving on a loopback listener in the same process; after every step every actor's Get/GetReader of every key and GetKeys are compared with the SAME reference model the inline client is held to "
+          "(values byte-exact, error class by errors.Is over the exported sentinels). non-trivial = the history used a transaction and some call returned an error. "
+          "part 'errors': error values built from every exported sentinel under random fmt.Errorf(%w) chains / errors.Join with foreign errors -> adapter Error -> gRPC status -> adapter ClientError; class(client(server(e))) must equal class(e), non-sentinel errors must become ErrUnknown."),
+    assumptions=_E1_ASSUME[:2] + ["differential via the shared model: both clients are compared with the same reference model rather than with each other (the inline runs are C01-C03, C13)",
+                                  "known finding C13-late-write-accepted applies here too (writes through ended handles)"],
+    parts=[P("ext", "seq", "TestC11", dict(checks=96, shards=8, timeout=900), dict(checks=4000, shards=16, timeout=3400))],
+)
